@@ -67,7 +67,7 @@ BSeek ==
                 \cup (IF known /\ e.res.c = "ok" /\ ~Representable(t) THEN {"seek"} ELSE {})            \* wrapped around instead of failing
                 \cup (IF known /\ e.res.c = "ok" /\ Representable(t) /\ e.res.v # t THEN {"seek"} ELSE {})  \* landed somewhere else
                 \cup (IF known /\ e.res.c # "ok" /\ e.res.c # "panic" /\ Small(t) THEN {"class"} ELSE {}) IN  \* refused an ordinary position
-     /\ bpos' = IF e.res.c = "ok" THEN e.res.v ELSE IF known THEN pos0 ELSE bpos             \* a failed seek leaves the position alone
+     /\ bpos' = IF e.res.c = "ok" THEN e.res.v ELSE bpos        \* a failed seek leaves the position alone (unknown stays unknown)
      /\ tainted' = (tainted \/ bad # {})
      /\ Bump(CN.calls) /\ Bump(CN.big_seeks)
      /\ IF bad = {} THEN TRUE
